@@ -32,11 +32,12 @@ func init() {
 			checkC20Parse(c, budget(c.Tier, 1200, 60000))
 		}}
 	props["C17"] = propRun{
-		rule: "(a) wrapText on random texts (long words, newlines, tabs, multi-byte runes, arbitrary bytes) x widths -4..35 x prefixes; (b) WriteHelp of generated declarations (non-ASCII names, value names, choices, nested groups, positional arguments, selected command chains) under a real pty of width 1..300; non-trivial = more than one output line; distinct per (text,width) / case",
+		rule: "(a) wrapText on random texts (long words, newlines, tabs, multi-byte runes, arbitrary bytes) x widths -4..35 x prefixes; (b) WriteHelp of generated declarations (non-ASCII names, value names, choices, nested groups, positional arguments, selected command chains) under a real pty of width 1..300; (c) nested stage: help with a subcommand active whose longest option name is a few characters shorter than, as long as, or longer than the top level's (the indentation of the subcommand's rows counts towards the common column); non-trivial = more than one output line; distinct per (text,width) / case",
 		run: func(c *Ctx) {
 			c.N = budget(c.Tier, 3000, 300000)
 			checkC17Wrap(c)
 			checkC17Help(c, budget(c.Tier, 400, 40000))
+			checkC17Nested(c, budget(c.Tier, 200, 8000))
 		}}
 	props["C19"] = propRun{
 		rule: "(a) tags rendered from random (key, value) lists with strconv.Quote and random blanks, one third mutated at a random byte position, through the scanner; (b) generated declarations (15% deliberately malformed / colliding / over-long short names / defaults on flags) built on the real library and in the model, full dump of the public model compared, attributes checked against reflect.StructTag; (c) duplicates stage: one declaration with two options of different groups sharing a short or (namespaced) long name - top level / nested / sibling groups / two levels deep / created by a namespace - must be refused with ErrDuplicatedFlag, controls accepted; (d) malformed stage: a well-formed declaration in which the tag of one field (option at the top / in a group / in a command, group field, command field, positional-args field, positional argument) is broken in a definite way must be refused with ErrTag; (e) indirect-types stage, against the library only (types outside the model's universe): fields reaching bool / string / int through up to three levels of slice and pointer, with and without a default tag: a default on a boolean flag is refused with ErrInvalidTag whatever the indirection, everything else is accepted; (f) containers stage, against the library only: a struct (or pointer to one) used as group / command / positional-args / untagged nested struct whose type also implements Unmarshaler (pointer receiver, value receiver, promoted): the public model holds the group with its namespaced options and defaults, the command with its aliases, the positional arguments; a malformed tag inside it is refused with ErrTag; distinct per tag / declaration",
@@ -299,10 +300,11 @@ func init() {
 
 func init() {
 	props["C13"] = propRun{
-		rule: "pairs over one generated declaration: an INI text with 1-3 entries naming one option (by ini-name in either case, field name, namespaced long name or short name, under the global section or a group section in any letter case, normal or as-defaults mode) read into one fresh parser, and the corresponding --long=value flags parsed by another; the option must end with the same value; the expected target of the name is computed independently from the documented priority; distinct per (text, argv); late-section stage (one IniParser, a section declared between two reads of the same file); plus mixed ini operations for the model tie",
+		rule: "pairs over one generated declaration: an INI text with 1-3 entries naming one option (by ini-name in either case, field name, namespaced long name or short name, under the global section or a group section in any letter case, normal or as-defaults mode) read into one fresh parser, and the corresponding --long=value flags parsed by another; the option must end with the same value; the expected target of the name is computed independently from the documented priority; distinct per (text, argv); late-section stage (one IniParser, a section declared between two reads of the same file); command-collection stage (a slice / map option of a command, one or two levels down, that already holds something - stored, left by an earlier call, read from an earlier file: the entries replace it and accumulate, exactly as the flags do); plus mixed ini operations for the model tie",
 		run: func(c *Ctx) {
 			checkC13(c, budget(c.Tier, 600, 60000))
 			checkIniLateSection(c, budget(c.Tier, 150, 5000), "C13")
+			checkC13CommandCollection(c, budget(c.Tier, 150, 5000))
 			runMixedCases(c, budget(c.Tier, 150, 15000), defaultProfile, []string{"iniparse", "parse"}, 3, func(cr *CaseResult) { oracleNoPanic(c, cr) })
 		}}
 	props["C05"] = propRun{
